@@ -85,6 +85,16 @@ func mods(m vaxis.ModifierMask) int {
 	if m&vaxis.ModCtrl != 0 {
 		n |= 4
 	}
+	// every other bit is reported too (an SGR mouse report carries no other
+	// modifier: the oracle expects none)
+	for i, b := range []vaxis.ModifierMask{vaxis.ModSuper, vaxis.ModHyper, vaxis.ModMeta, vaxis.ModCapsLock, vaxis.ModNumLock} {
+		if m&b != 0 {
+			n |= 8 << i
+		}
+	}
+	if rest := m &^ (vaxis.ModShift | vaxis.ModAlt | vaxis.ModCtrl | vaxis.ModSuper | vaxis.ModHyper | vaxis.ModMeta | vaxis.ModCapsLock | vaxis.ModNumLock); rest != 0 {
+		n |= 1 << 8
+	}
 	return n
 }
 
